@@ -15,6 +15,8 @@
 //                                                                                 : List String
 //   func_text        gofmt-normalised, comment-free text of `func`               : String
 //   returns_in_func  rendered operands of every return statement in `func`       : List String
+//   lines_matching   any text file (e.g. Python source): trimmed lines matching the Go regexp
+//                    given in `ident`, file order                                 : List String
 //   skeleton_in_func control skeleton of `func` (calls filtered by `filter`, if/else/for/case/func
 //                    brackets, returns), source order                             : List String
 //   assigns_in_func  rendered assignment and ++/-- statements in `func` whose left-hand side starts
@@ -37,6 +39,7 @@ import (
 	"go/token"
 	"os"
 	"path/filepath"
+	"regexp"
 	"sort"
 	"strconv"
 	"strings"
@@ -54,6 +57,9 @@ type fact struct {
 type spec struct {
 	Facts []fact `json:"facts"`
 }
+
+// leanCommentSafe keeps a pattern from closing the Lean doc comment it is quoted in.
+func leanCommentSafe(s string) string { return strings.ReplaceAll(s, "-/", "- /") }
 
 func die(format string, a ...interface{}) {
 	fmt.Fprintf(os.Stderr, "translator: "+format+"\n", a...)
@@ -422,6 +428,28 @@ func main() {
 	var b strings.Builder
 	fmt.Fprintf(&b, "/- GENERATED by /verif/translator from the /repo working tree on every run. Do not edit. -/\nnamespace ArvVerif.Facts.%s\n\n", *ns)
 	for _, fc := range sp.Facts {
+		if fc.Kind == "lines_matching" {
+			// any text file (e.g. Python): the trimmed lines that match the Go regexp in `ident`
+			re, err := regexp.Compile(fc.Ident)
+			if err != nil {
+				die("fact %s: bad pattern: %v", fc.Name, err)
+			}
+			raw, err := os.ReadFile(filepath.Join(*repo, fc.File))
+			if err != nil {
+				die("fact %s: %v", fc.Name, err)
+			}
+			var ss []string
+			for _, l := range strings.Split(string(raw), "\n") {
+				if re.MatchString(l) {
+					ss = append(ss, strings.TrimSpace(l))
+				}
+			}
+			if len(ss) == 0 {
+				die("fact %s: no line of %s matches %s", fc.Name, fc.File, fc.Ident)
+			}
+			fmt.Fprintf(&b, "/-- lines_matching %s %s -/\ndef %s : List String :=\n  %s\n\n", fc.File, leanCommentSafe(fc.Ident), fc.Name, leanStringList(ss))
+			continue
+		}
 		f := load(fc.File)
 		var fd *ast.FuncDecl
 		if fc.Func != "" {
